@@ -67,3 +67,97 @@ pub open spec fn lw_rest(s: Seq<i64>) -> Seq<i64> { s.take(s.len() - 1 - s.last(
 pub uninterp spec fn iter_items<I>(i: I) -> Seq<i64>;
 pub broadcast axiom fn iter_items_array<const N: usize>(a: [i64; N]) ensures #[trigger] iter_items(a) == a@;
 pub broadcast axiom fn iter_items_vec(v: Vec<i64>) ensures #[trigger] iter_items(v) == v@;
+
+// ---- ALU (asm.yml `Alu` group; C08: mathematical integer arithmetic, fails instead of wrapping)
+pub open spec fn trunc_div(a: int, b: int) -> int {      // Rust/hardware `/` : rounds toward zero
+    if b == 0 { 0 } else if (a >= 0) == (b > 0) { (if a >= 0 { a } else { -a }) / (if b > 0 { b } else { -b }) }
+    else { -((if a >= 0 { a } else { -a }) / (if b > 0 { b } else { -b })) } }
+pub open spec fn trunc_rem(a: int, b: int) -> int { a - b * trunc_div(a, b) }
+pub open spec fn sp_add(a: i64, b: i64) -> Option<i64> { if fits(a + b) { Some((a + b) as i64) } else { None } }
+pub open spec fn sp_sub(a: i64, b: i64) -> Option<i64> { if fits(a - b) { Some((a - b) as i64) } else { None } }
+pub open spec fn sp_mul(a: i64, b: i64) -> Option<i64> { if fits(a * b) { Some((a * b) as i64) } else { None } }
+pub open spec fn sp_div(a: i64, b: i64) -> Option<i64> {
+    if b == 0 || (a == i64::MIN && b == -1) { None } else { Some(trunc_div(a as int, b as int) as i64) } }
+pub open spec fn sp_mod(a: i64, b: i64) -> Option<i64> {
+    if b == 0 || (a == i64::MIN && b == -1) { None } else { Some(trunc_rem(a as int, b as int) as i64) } }
+pub open spec fn sp_shl(a: i64, b: i64) -> Option<i64> { if 0 <= b < 64 { Some(a << b) } else { None } }
+pub open spec fn sp_shr(a: i64, b: i64) -> Option<i64> { if 0 <= b < 64 { Some(((a as u64) >> (b as u64)) as i64) } else { None } }
+pub open spec fn sp_shri(a: i64, b: i64) -> Option<i64> { if 0 <= b < 64 { Some(a >> b) } else { None } }
+
+// ---- Pred
+pub open spec fn sp_eq_range(s: Seq<i64>) -> Option<Seq<i64>> {      // [.., a_0..a_N, b_0..b_N, len]
+    let n = s.len() as int;
+    if n < 1 { None } else {
+        let len = s[n - 1] as int; let t = s.drop_last();
+        if len < 0 || 2 * len > t.len() { None } else {
+            let base = t.len() - 2 * len;
+            Some(t.take(base).push(b2w(t.subrange(base, base + len) == t.subrange(base + len, base + 2 * len)))) } } }
+
+// ---- Memory ops: (stack, memory) -> Option<(stack, memory)>
+pub open spec fn sp_mem_alloc(s: Seq<i64>, m: Seq<i64>) -> Option<(Seq<i64>, Seq<i64>)> {
+    if s.len() < 1 { None } else { let n = s.last() as int; let t = s.drop_last();
+        if 0 <= n && m.len() + n <= 10240 { Some((t.push(m.len() as i64), m + zeros(n as nat))) } else { None } } }
+pub open spec fn sp_mem_free(s: Seq<i64>, m: Seq<i64>) -> Option<(Seq<i64>, Seq<i64>)> {
+    if s.len() < 1 { None } else { let l = s.last() as int; let t = s.drop_last();
+        if 0 <= l <= m.len() { Some((t, m.take(l))) } else { None } } }
+pub open spec fn sp_mem_load(s: Seq<i64>, m: Seq<i64>) -> Option<(Seq<i64>, Seq<i64>)> {
+    if s.len() < 1 { None } else { let a = s.last() as int; let t = s.drop_last();
+        if 0 <= a < m.len() { Some((t.push(m[a]), m)) } else { None } } }
+pub open spec fn sp_mem_store(s: Seq<i64>, m: Seq<i64>) -> Option<(Seq<i64>, Seq<i64>)> {
+    let n = s.len() as int;
+    if n < 2 { None } else { let a = s[n - 1] as int; let v = s[n - 2]; let t = s.take(n - 2);
+        if 0 <= a < m.len() { Some((t, m.update(a, v))) } else { None } } }
+pub open spec fn sp_mem_load_range(s: Seq<i64>, m: Seq<i64>) -> Option<(Seq<i64>, Seq<i64>)> {
+    let n = s.len() as int;
+    if n < 2 { None } else { let a = s[n - 2] as int; let k = s[n - 1] as int; let t = s.take(n - 2);
+        if 0 <= a && 0 <= k && a + k <= m.len() && t.len() + k <= 4096 { Some((t + m.subrange(a, a + k), m)) } else { None } } }
+pub open spec fn sp_mem_store_range(s: Seq<i64>, m: Seq<i64>) -> Option<(Seq<i64>, Seq<i64>)> {   // [values.., len, index]
+    let n = s.len() as int;
+    if n < 2 { None } else { let a = s[n - 1] as int; let t = s.drop_last();
+        if !lw_ok(t) { None } else { let vs = lw_words(t);
+            if 0 <= a && a + vs.len() <= m.len() { Some((lw_rest(t), m.take(a) + vs + m.skip(a + vs.len()))) } else { None } } } }
+
+// ---- Control flow (C09).  None = error; Some(None) = fall through to pc+1; Some(Some(p)) = jump to p
+pub open spec fn sp_jump_target(pc: int, dist: i64, cond: i64) -> Option<Option<int>> {
+    match w2b(cond) {
+        None => None,
+        Some(false) => Some(None),
+        Some(true) => if dist == 0 || pc + dist < 0 || pc + dist > usize::MAX { None } else { Some(Some(pc + dist)) } } }
+
+// ---- Repeat (C09).  A slot of the repeat stack: counter, Some(limit) when counting up / None when counting down, loop start pc
+pub open spec fn repeat_wf<T>(r: Seq<T>) -> bool { r.len() <= 4096 }
+pub open spec fn sat_sub1(l: i64) -> int { if l == i64::MIN { i64::MIN as int } else { l - 1 } }
+// RepeatEnd on the top slot: (None, _) = loop finished, slot popped, fall through;  (Some(slot'), _) = jump back to slot.start
+pub open spec fn sp_repeat_end(sl: crate::repeat::SlotS) -> (Option<crate::repeat::SlotS>, int) {
+    match sl.up {
+        Some(limit) => if sl.counter >= sat_sub1(limit) { (None, 0) }
+                       else { (Some(crate::repeat::SlotS { counter: (sl.counter + 1) as i64, up: sl.up, start: sl.start }), sl.start) },
+        None => if sl.counter <= 1 { (None, 0) }
+                else { (Some(crate::repeat::SlotS { counter: (sl.counter - 1) as i64, up: sl.up, start: sl.start }), sl.start) } } }
+// Repeat op at pc: [.., num_repeats, count_up]
+pub open spec fn sp_repeat_begin(pc: int, s: Seq<i64>, rs: Seq<crate::repeat::SlotS>) -> Option<(Seq<i64>, Seq<crate::repeat::SlotS>)> {
+    let n = s.len() as int;
+    if n < 2 { None } else { match w2b(s[n - 1]) {
+        None => None,
+        Some(up) => if pc + 1 > usize::MAX || rs.len() >= 4096 { None } else {
+            Some((s.take(n - 2), rs.push(if up { crate::repeat::SlotS { counter: 0, up: Some(s[n - 2]), start: pc + 1 } }
+                                         else { crate::repeat::SlotS { counter: s[n - 2], up: None, start: pc + 1 } }))) } } } }
+
+// ---- lemmas: vstd's model of Rust `/` and `%` on signed integers (rust_div / rust_rem) is truncating division
+pub proof fn lemma_div_negdiv(x: int, b: int) requires x >= 0, b < 0 ensures x / b == -(x / (-b)) {
+    let q = x / b; let r = x % b;
+    vstd::arithmetic::div_mod::lemma_fundamental_div_mod(x, b);
+    assert(x == b * q + r);
+    assert(0 <= r < -b);
+    assert((-b) * (-q) == b * q) by(nonlinear_arith);
+    vstd::arithmetic::div_mod::lemma_fundamental_div_mod_converse(x, -b, -q, r);
+}
+pub proof fn lemma_rust_div(a: int, b: int) requires b != 0
+    ensures vstd::arithmetic::div_mod::rust_div(a, b) == trunc_div(a, b), vstd::arithmetic::div_mod::rust_rem(a, b) == trunc_rem(a, b) {
+    if b < 0 { if a >= 0 { lemma_div_negdiv(a, b); } else { lemma_div_negdiv(-a, b); } }
+    if a == 0 { assert(0int / b == 0) by(nonlinear_arith) requires b != 0; assert(0int / (-b) == 0) by(nonlinear_arith) requires b != 0; }
+    assert(vstd::arithmetic::div_mod::rust_div(a, b) == trunc_div(a, b));
+    if a > 0 { vstd::arithmetic::div_mod::lemma_fundamental_div_mod(a, b); }
+    if a < 0 { vstd::arithmetic::div_mod::lemma_fundamental_div_mod(-a, b);
+               assert(b * (-((-a) / b)) == -(b * ((-a) / b))) by(nonlinear_arith); }
+}
